@@ -23,10 +23,10 @@ structure ClassOk (t : ClassFacts) : Prop where
   enclosing : ∀ em, t.enclosingMethod = some em →
     validClassName em.1 = true ∧ ∀ nd, em.2 = some nd → validMethodName nd.1 = true
   sde : ∀ s, t.sourceDebugExtension = some s → Mutf8.Encodable s = true
-  rva : t.rva = []
-  ria : t.ria = []
-  rvta : t.rvta = []
-  rita : t.rita = []
+  rva : AnnosOk t.rva
+  ria : AnnosOk t.ria
+  rvta : TypeAnnosOk .cls t.rvta
+  rita : TypeAnnosOk .cls t.rita
   module : t.module = none
   mainClass : ∀ c, t.moduleMainClass = some c → validClassName c = true
   nestHost : ∀ c, t.nestHost = some c → validClassName c = true
@@ -90,6 +90,7 @@ def withAttrsOf (base t : ClassFacts) : ClassFacts :=
   { base with deprecated := base.deprecated || t.deprecated, synthetic := base.synthetic || t.synthetic,
               innerClasses := t.innerClasses, enclosingMethod := t.enclosingMethod, signature := t.signature,
               sourceFile := t.sourceFile, sourceDebugExtension := t.sourceDebugExtension,
+              rva := base.rva ++ t.rva, ria := base.ria ++ t.ria, rvta := base.rvta ++ t.rvta, rita := base.rita ++ t.rita,
               modulePackages := t.modulePackages, moduleMainClass := t.moduleMainClass, nestHost := t.nestHost,
               nestMembers := t.nestMembers, permittedSubclasses := t.permittedSubclasses,
               attrs := base.attrs ++ t.attrs }
